@@ -91,15 +91,20 @@ func multiScenario(id string, roms []string, order []int, sched string, frames i
 		// "frame-audio": as "frame", every instance with its own (stand-in) speakers attached; each instance's outputs
 		// are released at the end, in creation order, and what its speakers received is part of the comparison
 		audio := sched == "frame-audio"
-		for i, r := range roms {
-			in := newInstOpt(r, audio, audio && i%2 == 1)
-			for f := 0; f < frames; f++ {
-				in.gb.VerifRunFrame(context.Background())
-				sc.Ev = append(sc.Ev, []any{"solo", i, f, gbDigest(in.gb, in.serial)})
+		soloRuns := func() {
+			for i, r := range roms {
+				in := newInstOpt(r, audio, audio && i%2 == 1)
+				for f := 0; f < frames; f++ {
+					in.gb.VerifRunFrame(context.Background())
+					sc.Ev = append(sc.Ev, []any{"solo", i, f, gbDigest(in.gb, in.serial)})
+				}
+				if audio {
+					sc.Ev = append(sc.Ev, []any{"solo", i, frames, finalDigest(in)})
+				}
 			}
-			if audio {
-				sc.Ev = append(sc.Ev, []any{"solo", i, frames, finalDigest(in)})
-			}
+		}
+		if sched != "conc" {
+			soloRuns()
 		}
 		ins := make([]*inst, len(roms))
 		for _, i := range order {
@@ -143,6 +148,9 @@ func multiScenario(id string, roms []string, order []int, sched string, frames i
 			}(i)
 		}
 		wg.Wait()
+		// in the concurrent schedule the instances are the first emulators of the process (nothing was loaded or
+		// initialised before them); the solo runs they are compared with come afterwards
+		soloRuns()
 		for f := 0; f < frames; f++ {
 			for i := range roms {
 				sc.Ev = append(sc.Ev, []any{"multi", i, f, res[i][f]})
